@@ -93,7 +93,8 @@ def run_tlc(scr, module, cfg_path, cases_path, workers=None, timeout=1200, heap=
         if fn.endswith(".tla"):
             shutil.copy(os.path.join(SPEC, fn), wd)
     shutil.copy(cfg_path, os.path.join(wd, module + ".cfg"))
-    cmd = ["java", "-Xmx" + heap, "-Xss64m", "-XX:+UseParallelGC", "-XX:ParallelGCThreads=4", "-cp", TLA_CP, "tlc2.TLC",
+    # (TLC unpacks its standard modules into java.io.tmpdir on every run: keep that inside the scratch directory)
+    cmd = ["java", "-Djava.io.tmpdir=" + wd, "-Xmx" + heap, "-Xss64m", "-XX:+UseParallelGC", "-XX:ParallelGCThreads=4", "-cp", TLA_CP, "tlc2.TLC",
            "-workers", str(workers), "-metadir", os.path.join(wd, "md"), "-config", module + ".cfg"]
     if simulate:
         cmd += ["-simulate", simulate]
@@ -427,7 +428,7 @@ def record_and_validate(scr, name, seed, traces, steps, dtype="float64", tags=("
         f.write('SPECIFICATION TSpec\nCONSTANTS TraceFile = "tr.ndjson"\nINVARIANTS TraceOK Consumed\nCHECK_DEADLOCK FALSE\n')
     env = dict(os.environ)
     env.pop("JAVA_TOOL_OPTIONS", None)
-    cmd = ["java", "-Xmx6g", "-Xss128m", "-XX:+UseParallelGC", "-XX:ParallelGCThreads=4", "-cp", TLA_CP, "tlc2.TLC", "-workers", "1",
+    cmd = ["java", "-Djava.io.tmpdir=" + wd, "-Xmx6g", "-Xss128m", "-XX:+UseParallelGC", "-XX:ParallelGCThreads=4", "-cp", TLA_CP, "tlc2.TLC", "-workers", "1",
            "-metadir", os.path.join(wd, "md"), "-config", "Trace.cfg", "Trace.tla"]
     try:
         q = subprocess.run(cmd, cwd=wd, capture_output=True, text=True, env=env, timeout=timeout)
